@@ -69,10 +69,18 @@ class RdmsOps:
         pool.tables = (rdm_tab, pat_tab, nan_cells)
         pool.sem_checkers['rdms'] = (lambda slot, opname, prop='C10': pool.check_rdms(slot, opname, prop=prop), 'C10')
         for spec in family['roots']:
-            obj = gen.build_rdms(spec)
+            try:
+                obj = gen.build_rdms(spec)
+            except Exception as e:
+                if pool.prop == 'C10':
+                    pool.report('C10', 'rdms_twin.raises', f'constructor:raises:{type(e).__name__}',
+                                f'RDMs(...) raised {type(e).__name__}: {e} for a valid {len(spec["rdm_uids"])} x {len(spec["cond_uids"])}-condition vector stack')
+                raise HarnessError(f'RDMs constructor raised {e!r}')
             s = pool.add(obj, 'rdms', {'ru': list(spec['rdm_uids']), 'cu': list(spec['cond_uids']), 'missing': set()},
                          'root', [])
-            pool.check_rdms(s, 'root', prop='HARNESS')
+            # the only library code between the generator and this check is the RDMs constructor: under C10 an
+            # inconsistent root is a violation (vector length -> n_cond, descriptors stored), elsewhere a harness error
+            pool.check_rdms(s, 'constructor', prop='C10' if pool.prop == 'C10' else 'HARNESS')
             if s.sem is None:
                 raise HarnessError('generated root is inconsistent')
 
